@@ -290,6 +290,17 @@ def gen_asset_rows(rng, asset, exchanges, holders, flags, start_year):
                     wf = (no_fee + fiat_fee).quantize(Decimal("0.01"))
                     if wf < 32000:
                         r["fiat_in_with_fee"] = wf
+                # what exchanges really export: one of the two totals only, and totals that are off by cents or by a rounded-up fee
+                # (RP2 warns about the mismatch and uses the supplied value)
+                k2 = rng.random()
+                if k2 < 0.15 and r.get("fiat_in_with_fee") is not None:
+                    r["fiat_in_no_fee"] = None
+                elif k2 < 0.3:
+                    r["fiat_in_with_fee"] = None
+                if rng.random() < 0.2:
+                    f2 = rng.choice(["fiat_in_no_fee", "fiat_in_with_fee"])
+                    if r.get(f2) is not None:
+                        r[f2] = max(Decimal("0.01"), r[f2] + rng.choice([Decimal("0.01"), Decimal("-0.01"), Decimal("0.5"), Decimal("50"), Decimal("-1.25")]))
         bal[(e, h)] = bal.get((e, h), Decimal(0)) + amt - (r["crypto_fee"] or 0)
         rows.append(("IN", r))
 
